@@ -10,6 +10,7 @@ _TAGS = {
     "MEMBER:": "finding7-drop-vs-throwing-value-store",
     "EXC:": "finding7-drop-vs-throwing-value-store",
 }
+_TERMINATE = "finding14-drop-after-abandon-terminates"
 
 
 class _Keyed:
@@ -29,6 +30,18 @@ class _Keyed:
                     break
             else:
                 key = "spawn_future/monitor-%s/%s" % (text.split(":")[0].lower() or "failed", parts[-2])
+        elif key.endswith("/deadlock"):
+            # the driver's terminate handler logs '!TERMINATE' and parks the thread: the run ends as a
+            # 'deadlock' whose trace shows which call of std::terminate() it was
+            try:
+                import json
+                line = json.load(open(replay_path)).get("line", "")
+            except Exception:
+                line = text
+            if "!TERMINATE" in line:
+                who = "drop" if "conndrop" in key else "other"
+                key = "spawn_future/%s/%s" % (_TERMINATE if who == "drop" else "std-terminate", key.split("/")[-2])
+                text = "std::terminate() called (trace ends with !TERMINATE): " + text[:200]
         return self._chk.violation(key, replay_path, no_input=no_input, text=text)
 
 
@@ -41,9 +54,9 @@ def run(chk, replay=None):
         "overload of spawn_future, a scheduler that posts the future's continuation to thread Fut)",
         "modelled not verified: the stop sources are at lock granularity (C03 owns their internals); the scope counter is C08's "
         "(only 'scope word back to 0' is monitored); v1-scope awaited futures are monitored, not tied",
-        "model variant tied to the code: tools/units/future.py MODEL_VARIANT = %r" % future.MODEL_VARIANT]
+        "model variant tied to the code: tools/units/future.py MODEL_VARIANT = %r" % future.VARIANT]
     chk.cov["rule"] = ("K1: all schedules of each program with <= bound preemptions (truncated at maxruns) plus seeded random ones; "
                        "distinct = distinct projected traces; non-trivial = at least two context switches among owned events")
-    chk.cov["model_variant"] = future.MODEL_VARIANT
+    chk.cov["model_variant"] = future.VARIANT
     chk.prove()
     k1.run_unit(_Keyed(chk), future.SpawnFuture())
